@@ -1,5 +1,6 @@
 use crate::Ctx;
 pub mod c01;
+pub mod c02;
 pub mod c03;
 pub mod c07;
 pub mod req;
@@ -10,6 +11,7 @@ pub mod c20;
 pub fn run(ctx: &mut Ctx, suite: &str) {
     match suite {
         "c01" => c01::run(ctx),
+        "c02" => c02::run(ctx),
         "c03" => c03::run(ctx),
         "c07" => c07::run(ctx),
         "c14" => c14::run(ctx),
